@@ -71,7 +71,9 @@ theorem copy_sem (ctx : Ctx) (T : List FEntry) (B lo : Nat) : ∀ (vs : List Val
 theorem hn_not_touched {ctx : Ctx} {T : List FEntry} {B : Nat} (hctx : CtxOK ctx T B) {e : FEntry} (he : e ∈ T) (j : Nat) :
     ¬ Touched e.j e.b (ctx.hn j) := by
   intro ht
-  rcases ht with ⟨i, a, hi, hx⟩ | ⟨i, hx⟩ | hg | ⟨n, _, hx⟩
+  rcases ht with ⟨i, a, hi, hx⟩ | ⟨i, hx⟩ | hg | ⟨n, _, hx⟩ | hsp
+  rotate_right
+  · exact ctx.hn_ne_special j hsp rfl
   · simp only [Ctx.hn, Ctx.mg] at hx
     by_cases hin : ctx.inFn = true
     · simp only [hin, Bool.not_false, Bool.and_self, if_true] at hx
@@ -90,7 +92,9 @@ theorem hn_not_touched {ctx : Ctx} {T : List FEntry} {B : Nat} (hctx : CtxOK ctx
 theorem tn_not_touched {ctx : Ctx} {T : List FEntry} {B : Nat} (hctx : CtxOK ctx T B) {e : FEntry} (he : e ∈ T) (j : Nat) :
     ¬ Touched e.j e.b (ctx.tn j) := by
   intro ht
-  rcases ht with ⟨i, a, hi, hx⟩ | ⟨i, hx⟩ | hg | ⟨n, _, hx⟩
+  rcases ht with ⟨i, a, hi, hx⟩ | ⟨i, hx⟩ | hg | ⟨n, _, hx⟩ | hsp
+  rotate_right
+  · exact ctx.tn_ne_special j hsp rfl
   · simp only [Ctx.tn, Ctx.mg] at hx
     by_cases hin : ctx.inFn = true
     · simp only [hin, Bool.not_false, Bool.and_self, if_true] at hx
@@ -109,7 +113,9 @@ theorem tn_not_touched {ctx : Ctx} {T : List FEntry} {B : Nat} (hctx : CtxOK ctx
 theorem flag_not_touched {ctx : Ctx} {T : List FEntry} {B : Nat} (hctx : CtxOK ctx T B) {e : FEntry} (he : e ∈ T) (n : Nat) (hn : B ≤ n) :
     ¬ Touched e.j e.b (flagName n) := by
   intro ht
-  rcases ht with ⟨i, a, _, hx⟩ | ⟨i, hx⟩ | hg | ⟨n', hn', hx⟩
+  rcases ht with ⟨i, a, _, hx⟩ | ⟨i, hx⟩ | hg | ⟨n', hn', hx⟩ | hsp
+  rotate_right
+  · exact special_ne_flag hsp n rfl
   · exact prefixed_ne_flag i a n hx.symm
   · exact rv_ne_flag i n hx.symm
   · simp [goodName2, goodName, flagName_eq, String.toList_append] at hg
@@ -120,7 +126,9 @@ theorem flag_not_touched {ctx : Ctx} {T : List FEntry} {B : Nat} (hctx : CtxOK c
 theorem local_not_touched {ctx : Ctx} {T : List FEntry} {B : Nat} (hctx : CtxOK ctx T B) {e : FEntry} (he : e ∈ T) (hin : ctx.inFn = true)
     (x : String) : ¬ Touched e.j e.b (fnPrefix ctx.k ++ x) := by
   intro ht
-  rcases ht with ⟨i, a, hi, hx⟩ | ⟨i, hx⟩ | hg | ⟨n', _, hx⟩
+  rcases ht with ⟨i, a, hi, hx⟩ | ⟨i, hx⟩ | hg | ⟨n', _, hx⟩ | hsp
+  rotate_right
+  · exact special_ne_prefixed hsp _ _ rfl
   · have := (fnPrefix_inj hx).1
     have := hctx.above hin e he
     omega
@@ -165,7 +173,10 @@ theorem call_exec {ctx : Ctx} {T : List FEntry} {B : Nat} (hT : TableOK T) (hctx
     have hcr : callResult m1 o' m2 = some (.normal, m3) := by
       rcases ho' with rfl | rfl <;> rfl
     refine ⟨m3, ExecCmd.call hlk hex ex hcr, ?_, ⟨rfl, rfl, hmf2⟩, ?_, ?_⟩
-    · refine ⟨⟨hi.agree.inFn, hag.out, ?_, ?_⟩, ⟨Tr, hsuf, hnd, by rw [← hcf]; exact hcf2, by rw [← hmf]; exact hmf2⟩⟩
+    · refine ⟨⟨hi.agree.inFn, hag.out, ?_, ?_, ⟨?_, hag.hp.heap, hag.hp.fresh⟩⟩, ⟨Tr, hsuf, hnd, by rw [← hcf]; exact hcf2, by rw [← hmf]; exact hmf2⟩⟩
+      rotate_left 2
+      · show restore m2.saved m2.ρ "_dvc" = _
+        rw [hrest _ (fun a => special_ne_prefixed (x := "_dvc") (by decide) _ a)]; exact hag.hp.dvc
       · intro x v hx
         obtain ⟨hg, hv⟩ := hag.glob x v hx
         exact ⟨hg, by show restore m2.saved m2.ρ x = _; rw [hrest x (fun a => good2_ne_prefixed x _ a hg)]; exact hv⟩
